@@ -80,7 +80,7 @@ class MultiGeoLineString(MultiShapeBase, LineLikeMixin, SimpleShapeMixin):
     def copy(self) -> 'MultiGeoLineString':
         return MultiGeoLineString(
             [x.copy() for x in self.geoshapes],
-            dt=self.dt,
+            dt=self.dt.copy() if self.dt else None,
             properties=copy.deepcopy(self._properties)
         )
 
